@@ -872,6 +872,14 @@ impl<'a> RepositoryUpdate<'a> {
         ) {
             Ok(Some(notify)) => notify,
             Ok(None) => {
+                // Without a local copy there is nothing that could be
+                // unmodified. Treat the response as a failed update.
+                if current.is_none() {
+                    self.log.warn(format_args!(
+                        "Not modified response without a local copy."
+                    ));
+                    return Ok(false)
+                }
                 self.not_modified(current)?;
                 return Ok(true)
             }
